@@ -263,3 +263,83 @@ func VP_C16_copy_mut_drop_file()   { c16CopyTree(false, "drop_file") }
 func VP_C16_copy_mut_add_file()    { c16CopyTree(false, "add_file") }
 func VP_C16_copy_mut_dir_to_file() { c16CopyTree(false, "dir_to_file") }
 func VP_C16_copy_mut_file_to_dir() { c16CopyTree(false, "file_to_dir") }
+
+// c16CopyFail: one operation of the source (open / readdir) or of the destination (mkdir / openfile /
+// the first write) fails while copying c16SrcTree. The destination cannot be equal to the source
+// then, so CopyFileSystem must not return nil.
+func c16CopyFail(onSrc bool, op, p string) {
+	max := vp.Bound("filelen.tree", 3, 6)
+	S := c16NewFS("S", c16SrcTree(max))
+	D := c16NewFS("D", c16Dir("."))
+	if onSrc {
+		S.failOp, S.failPath = op, p
+	} else if op == "write" {
+		D.failWrite = 0
+	} else {
+		D.failOp, D.failPath = op, p
+	}
+	vp.Unwind(16)
+	vp.NoPanic()
+	err := CopyFileSystem(S, D)
+	vp.AllowPanic()
+	if op == "write" {
+		// a write only happens for non-empty data or an explicit empty write; either way it failed
+		werr := false
+		for _, h := range D.handles {
+			if h.werr {
+				werr = true
+			}
+		}
+		if werr {
+			vp.Assert(err != nil, "a failed write is reported")
+			vp.Cover("failed write reported")
+		}
+		vp.Cover("done")
+		return
+	}
+	vp.Assert(err != nil, "a failed source/destination operation is reported")
+	vp.Cover("failure reported")
+}
+
+func VP_C16_copy_fail_src_open()     { c16CopyFail(true, "open", "d/b.bin") }
+func VP_C16_copy_fail_src_readdir()  { c16CopyFail(true, "readdir", "d/e") }
+func VP_C16_copy_fail_src_root()     { c16CopyFail(true, "readdir", ".") }
+func VP_C16_copy_fail_dst_mkdir()    { c16CopyFail(false, "mkdir", "d/e") }
+func VP_C16_copy_fail_dst_openfile() { c16CopyFail(false, "openfile", "z") }
+func VP_C16_copy_fail_dst_write()    { c16CopyFail(false, "write", "") }
+
+// VP_C16_copy_tree_preexisting: the destination already holds a longer file z, a directory d with a
+// file b.bin of other content: after the copy these have the source's length and bytes.
+func VP_C16_copy_tree_preexisting() {
+	max := vp.Bound("filelen.tree", 3, 6)
+	s := c16SrcTree(max)
+	S := c16NewFS("S", s)
+	d := c16Dir(".", c16Dir("d", c16SymFile("b.bin", "old.b", c16Cap)), c16SymFile("z", "old.z", c16Cap))
+	D := c16NewFS("D", d)
+	vp.Unwind(16)
+	vp.NoPanic()
+	err := CopyFileSystem(S, D)
+	vp.AllowPanic()
+	vp.Assert(err == nil, "copy into a writable destination with older versions of the entries succeeds")
+	if err != nil {
+		return
+	}
+	for _, p := range []string{"a.txt", "d/b.bin", "z"} {
+		fs, fd := s.lookup(p), d.lookup(p)
+		vp.Assert(fd != nil, "file present in the destination")
+		if fd == nil {
+			return
+		}
+		vp.Assert(fd.size == fs.size, "copied file has the source's length (older content is truncated)")
+		vp.Assert(c16SameBytes(fs, fd), "copied file has the source's bytes")
+	}
+	vp.Assert(d.lookup("d/e") != nil, "d/e created")
+	vp.Assert(len(d.kids) == 3, "no excluded name copied into the root")
+	vp.Assert(len(d.lookup("d").kids) == 2, "no excluded name copied into d")
+	S.chunked = false
+	vp.NoPanic()
+	cerr := CompareFS(S, D)
+	vp.AllowPanic()
+	vp.Assert(cerr == nil, "CompareFS accepts the copy")
+	vp.Cover("copied over older entries")
+}
